@@ -737,7 +737,10 @@ struct Ctx {
     _dev: Device,
     strm: Option<StreamHandle>,
     /// payloads kept from the previous session on this handle, with the length of their buffer
-    foreign: Vec<(Payload, usize)>,
+    /// (payload, length of its buffer, the receiver's token of it in the previous session)
+    foreign: Vec<(Payload, usize, u64)>,
+    /// first receiver token of the next session (tokens are unique over all sessions of a handle)
+    tok_base: u64,
 }
 
 fn new_ctx() -> Ctx {
@@ -772,7 +775,7 @@ fn new_ctx() -> Ctx {
         device_info(),
     );
     let strm = StreamHandle::verif_new(&dev).expect("stream handle").expect("stream iface");
-    Ctx { fake, _dev: dev, strm: Some(strm), foreign: vec![] }
+    Ctx { fake, _dev: dev, strm: Some(strm), foreign: vec![], tok_base: 0 }
 }
 
 #[derive(Clone, Debug)]
@@ -810,7 +813,7 @@ struct Outcome {
     /// deallocations that hit the buffer of a transfer the USB stack still owned
     freed_while_outstanding: usize,
     /// payloads the receiver still held at the end (carried into a restart session)
-    kept: Vec<Payload>,
+    kept: Vec<(u64, Payload)>,
 }
 
 fn info_string(p: &Payload) -> String {
@@ -841,13 +844,14 @@ fn rx_thread(
     receiver: PayloadReceiver,
     b: RxBehaviour,
     seed: u64,
-    mut foreign: Vec<(Payload, usize)>,
-) -> (RxReport, Vec<Payload>) {
+    mut foreign: Vec<(Payload, usize, u64)>,
+    tok_base: u64,
+) -> (RxReport, Vec<(u64, Payload)>) {
     let mut rng = Rng::new(seed ^ 0x5151);
     let mut rep = RxReport::default();
     let mut receiver = Some(receiver);
     let mut held: Vec<(u64, Payload, u64, usize)> = vec![];
-    let mut next_tok = 0u64;
+    let mut next_tok = tok_base;
     let mut actions = 0u32;
     loop {
         if !sched.yield_at(RX) {
@@ -865,9 +869,11 @@ fn rx_thread(
         // hand back a payload this loop never produced (kept from the previous session on the same
         // handle, whose layout was different): a buffer of a foreign size enters the send-back channel
         if receiver.is_some() && !foreign.is_empty() && !want_close && rng.chance(1, 3) {
-            let (p, full_len) = foreign.pop().unwrap();
+            // (in the model this is `rxSendBack` of the payload the receiver has held since the earlier
+            // session: same token, same buffer identity)
+            let (p, _full_len, tok) = foreign.pop().unwrap();
             receiver.as_ref().unwrap().send_back(p);
-            sched.log(RX, format!("RF{full_len}"));
+            sched.log(RX, format!("RB{tok}"));
             continue;
         }
         if want_close {
@@ -931,7 +937,10 @@ fn rx_thread(
         }
     }
     sched.finish(RX);
-    (rep, held.into_iter().map(|(_, p, _, _)| p).collect())
+    // what is still held — from this session or, not yet handed back, from the previous one
+    let mut kept: Vec<(u64, Payload)> = held.into_iter().map(|(t, p, _, _)| (t, p)).collect();
+    kept.extend(foreign.into_iter().map(|(p, _, t)| (t, p)));
+    (rep, kept)
 }
 
 fn device_info() -> DeviceInfo {
@@ -1037,7 +1046,8 @@ fn run_session(plan: &Plan, mut ctx: Ctx) -> (Outcome, Option<Ctx>) {
         let b = plan.rx.clone();
         let seed = plan.sched_seed;
         let foreign = std::mem::take(&mut ctx.foreign);
-        std::thread::spawn(move || rx_thread(s, receiver, b, seed, foreign))
+        let tok_base = ctx.tok_base;
+        std::thread::spawn(move || rx_thread(s, receiver, b, seed, foreign, tok_base))
     };
     let ctl_handle = {
         let s = sched.clone();
@@ -1910,7 +1920,10 @@ fn oracle(plan: &Plan, out: &Outcome) -> Verdict {
                 v.push((json!({"kind": "stop-unbounded", "call": what}), format!("{loop_after_kc} loop events after the {what} request (bound {bound})")));
             }
             if out.loop_events.iter().any(|i| *i > kr) {
-                v.push((json!({"kind": "loop-after-stop", "call": what}), format!("the loop performed an operation after {what} returned")));
+                let lo = kr.saturating_sub(6);
+                let hi = (kr + 8).min(out.log.len());
+                v.push((json!({"kind": "loop-after-stop", "call": what}),
+                    format!("the loop performed an operation after {what} returned (events {lo}..{hi}: {})", out.log[lo..hi].join(" "))));
             }
             if plan.ctl_mode != 0 && !out.lock_free_after {
                 v.push((json!({"kind": "close-returned-while-loop-alive", "call": what}),
@@ -2010,6 +2023,14 @@ fn run_spec(rep: &mut Report, tot: &mut Totals, queue: &mut Vec<(String, Spec)>,
         out = r.0;
         ctx = r.1;
     }
+    // thread-death sessions (a panic injected into the loop thread) are not sent to the model; what is
+    // observed while a thread unwinds is re-checked once and reported only if it reproduces
+    if plan.kill_at_top.is_some() && out.hang.is_none() && !oracle(&plan, &out).violations.is_empty() {
+        rep.count("thread-death-session-rechecked");
+        let r = run_session(&plan, new_ctx());
+        out = r.0;
+        ctx = r.1;
+    }
     if out.stop_dur > Duration::from_secs(2) {
         rep.count("stop/close/drop took more than 2 s of wall-clock (not a verdict)");
     }
@@ -2026,11 +2047,13 @@ fn run_spec(rep: &mut Report, tot: &mut Totals, queue: &mut Vec<(String, Spec)>,
     if plan.start_again_at.is_some() {
         rep.count("ctl/start-while-running");
     }
+    let mut combined: Option<String> = None;
     // restart: a second session (other layout, other way of ending it) on the SAME handle
     if spec.restart && out.hang.is_none() {
         if let Some(mut c) = ctx.take() {
             let full = plan.params.max_payload();
-            c.foreign = std::mem::take(&mut out.kept).into_iter().map(|p| (p, full)).collect();
+            c.foreign = std::mem::take(&mut out.kept).into_iter().map(|(t, p)| (p, full, t)).collect();
+            c.tok_base = 100_000;
             if !c.foreign.is_empty() {
                 rep.count("second-session:with-foreign-payloads-to-send-back");
             }
@@ -2052,8 +2075,13 @@ fn run_spec(rep: &mut Report, tot: &mut Totals, queue: &mut Vec<(String, Spec)>,
             }
             if hang2 {
                 HANGS.fetch_add(1, std::sync::atomic::Ordering::SeqCst);
-            } else {
-                queue.push((model_request(&plan2, &out2), spec.clone()));
+            } else if out.hang.is_none() && plan.kill_at_top.is_none() {
+                // BOTH sessions are accepted by ONE run of the model (restart step in between)
+                let prefix = format!("c12 trace {} ", profile());
+                let s1 = model_request(&plan, &out);
+                let s2 = model_request(&plan2, &out2);
+                combined = Some(format!("c12 mtrace {} {} | {}", profile(), &s1[prefix.len()..], &s2[prefix.len()..]));
+                rep.count("two-session history accepted by one model run");
             }
         }
     }
@@ -2086,7 +2114,9 @@ fn run_spec(rep: &mut Report, tot: &mut Totals, queue: &mut Vec<(String, Spec)>,
         HANGS.fetch_add(1, std::sync::atomic::Ordering::SeqCst);
         return;
     }
-    if plan.kill_at_top.is_none() {
+    if let Some(c) = combined {
+        queue.push((c, spec.clone()));
+    } else if plan.kill_at_top.is_none() {
         queue.push((model_request(&plan, &out), spec.clone()));
     } else {
         rep.count("thread-death-injection(not sent to the model)");
